@@ -59,6 +59,7 @@ def inject(scratch, units, extra_tests=None):
                          'lines': list(it.line_span()), 'sha256': sha256(it.text)})
         # slices (read before any edit of that file)
         body = u.module_src
+        spans_by_fn = {}
         for s in cfg.get('slice', []):
             f = s.get('file', u.host)
             src = read(os.path.join(REPO, f))
@@ -77,6 +78,7 @@ def inject(scratch, units, extra_tests=None):
                 a, b = it.body_open + ms[s.get('nth', 0)].start(), it.body_open + ms[s.get('nth', 0)].end()
             else:
                 raise Undecided(f'unit {u.name}: unknown slice kind {kind}')
+            spans_by_fn.setdefault((f, s['fn'], s.get('impl')), []).append((a, b))
             text = src[a:b].strip()
             marker = f'/*@SLICE {s["name"]}*/'
             if marker not in body:
@@ -85,6 +87,15 @@ def inject(scratch, units, extra_tests=None):
             prov.append({'kind': 'slice', 'name': s['name'], 'file': f, 'fn': s['fn'], 'what': f'{kind} {s["key"]}',
                          'lines': [src.count('\n', 0, a) + 1, src.count('\n', 0, b) + 1], 'sha256': sha256(text),
                          'text': text if len(text) < 600 else text[:600] + '…'})
+        # residual guard: the part of a sliced function that is NOT inside a slice is pinned by hash,
+        # so a statement added in front of / behind the verified kernel cannot pass unnoticed
+        for (f, fn, impl), spans in spans_by_fn.items():
+            h = residual_hash(read(os.path.join(REPO, f)), fn, impl, spans)
+            want = cfg.get('residual', {}).get(fn)
+            prov.append({'kind': 'slice-residual', 'file': f, 'fn': fn, 'sha256_of_function_text_outside_the_slices': h, 'pinned': want})
+            if want and want != h:
+                raise Undecided(f'unit {u.name}: {f}::{fn} changed OUTSIDE its verified slice(s) (residual {h[:12]} != pinned {want[:12]}): '
+                                f'the slices no longer represent the function; review the unit and re-pin with vx/residuals.py')
         # contracts in place
         for c in cfg.get('contract', []):
             f = c.get('file', u.host)
@@ -114,6 +125,16 @@ def inject(scratch, units, extra_tests=None):
         p = os.path.join(scratch, 'src', 'lib.rs')
         write(p, read(p) + '\n#[cfg(kani)] pub(crate) mod verif_support;\n')
     return prov
+
+
+def residual_hash(src, fn, impl, spans):
+    it = rustscan.find_fn(src, fn, impl)
+    m = rustscan.mask(src)          # comments and string contents blanked
+    out, k = [], it.sig_start
+    for a, b in sorted(spans):
+        out.append(m[k:a]); out.append('/*SLICE*/'); k = b
+    out.append(m[k:it.body_close + 1])
+    return sha256(re.sub(r'\s+', ' ', ''.join(out)).strip())
 
 
 def add_direct_twins(body):
